@@ -15,6 +15,7 @@ MENU = {
     "h1": ("histogram", "a0", "a z", [], [], "HISTOGRAM", [([], 2)]),
     "p1": ("pulling_gauge", "Za", "a", [], [], "GAUGE", [([], 7)]),
     "i1": ("int_gauge", "a:a", "a", [], [], "GAUGE", [([], 5)]),
+    "i2": ("int_counter", "Z_a", "a", [], [], "COUNTER", [([], 6)]),      # its name already starts with the registry prefix "Z_"
     "hv": ("histogram_vec", "z", "z", [["Z9", "0"]], ["a"], "HISTOGRAM", [(["z"], 1), (["a"], 2), ([""], 1)]),
 }
 MIXED = {"g1"}      # collectors of another kind under an already used name (C14 only)
